@@ -268,9 +268,12 @@ def t_sparse_index():
     outer = [n for n in rs.body if isinstance(n, ast.For)]
     if len(outer) != 1:
         raise Unsupported('multiply_rs_matrix outer loop')
-    ladder = [n for n in outer[0].body if isinstance(n, ast.If)]
+    ladder = [n for n in outer[0].body if isinstance(n, (ast.If, ast.For))]
     if len(ladder) != 1:
         raise Unsupported('multiply_rs_matrix ladder')
+
+    def rs_chain(leaf):
+        return if_chain(ladder[0], leaf) if isinstance(ladder[0], ast.If) else leaf([ladder[0]])
 
     def leaf_rs(which):
         def leaf(body):
@@ -297,9 +300,9 @@ def t_sparse_index():
                     'dst': lambda: expr(tgt.slice.elts[0]), 'src': lambda: expr(val.right.slice.elts[0])}[which]()
         return leaf
     for which in ('lo', 'hi'):
-        out += f"Definition rs_{which} (T i m : Z) : Z :=\n  {if_chain(ladder[0], leaf_rs(which))}.\n\n"
+        out += f"Definition rs_{which} (T i m : Z) : Z :=\n  {rs_chain(leaf_rs(which))}.\n\n"
     for which in ('dst', 'src'):
-        out += f"Definition rs_{which} (i t : Z) : Z :=\n  {if_chain(ladder[0], leaf_rs(which))}.\n\n"
+        out += f"Definition rs_{which} (i t : Z) : Z :=\n  {rs_chain(leaf_rs(which))}.\n\n"
 
     # transpose key map and from_simple_diagonals
     tr = find_def('classes/sparse_jacobians.py', 'SimpleSparse.T')
